@@ -1014,6 +1014,25 @@ class _Normalise(ast.NodeTransformer):
         for st in (tree.body if tree is not None else []):
             if isinstance(st, ast.Assign) and len(st.targets) == 1 and isinstance(st.targets[0], ast.Name) and isinstance(st.value, ast.Dict) and st.value.keys and all(isinstance(k, ast.Constant) and isinstance(k.value, str) for k in st.value.keys):
                 self.tables[st.targets[0].id] = st.value
+        # module-level literal tables `NAME = ((a, 0), (b, 1), ...)` bound once: a loop / comprehension over NAME is unrolled as if
+        # the literal stood there (the table itself stays where it is: the folder and the evaluators resolve it by name)
+        self.row_tables = {}
+        counts = {}
+        for x in (ast.walk(tree) if tree is not None else []):
+            if isinstance(x, ast.Name) and isinstance(x.ctx, (ast.Store, ast.Del)):
+                counts[x.id] = counts.get(x.id, 0) + 1
+            elif isinstance(x, ast.arg):
+                counts[x.arg] = counts.get(x.arg, 0) + 2
+        for st in (tree.body if tree is not None else []):
+            tg = st.targets[0] if isinstance(st, ast.Assign) and len(st.targets) == 1 else (st.target if isinstance(st, ast.AnnAssign) else None)
+            v = getattr(st, "value", None)
+            if isinstance(tg, ast.Name) and isinstance(v, (ast.Tuple, ast.List)) and v.elts and all(isinstance(r, (ast.Tuple, ast.List)) and all(_is_simple_expr(e) for e in r.elts) for r in v.elts) and counts.get(tg.id) == 1:
+                self.row_tables[tg.id] = v
+
+    def _table_iter(self, it):
+        if isinstance(it, ast.Name) and it.id in getattr(self, "row_tables", {}):
+            return copy.deepcopy(self.row_tables[it.id])
+        return it
 
     def _expand_kwargs(self, node: ast.Call):
         new = []
@@ -1117,6 +1136,7 @@ class _Normalise(ast.NodeTransformer):
 
     def _block(self, stmts):
         out = []
+        orig_stmts = list(stmts)
         i = 0
         while i < len(stmts):
             st = stmts[i]
@@ -1146,6 +1166,8 @@ class _Normalise(ast.NodeTransformer):
             if wc is not None:
                 stmts = stmts[:i] + [wc] + stmts[i + 1:]
                 continue
+            if isinstance(st, ast.For) and isinstance(st.target, ast.Tuple):
+                st.iter = self._table_iter(st.iter)
             unrolled = self._unroll(st, stmts[:i])
             if unrolled is not None:
                 stmts = stmts[:i] + unrolled + stmts[i + 1:]
@@ -1158,7 +1180,7 @@ class _Normalise(ast.NodeTransformer):
             if upd is not None:
                 stmts = stmts[:i] + [upd] + stmts[i + 1:]
                 continue
-            folded = self._fold_temp(st, nxt, stmts[i + 2:])
+            folded = self._fold_temp(st, nxt, stmts[i + 2:]) if self._single_use_in_function(st, stmts, orig_stmts) else None
             if folded is not None:
                 stmts = stmts[:i] + [folded] + stmts[i + 2:]
                 continue
@@ -1456,8 +1478,10 @@ class _Normalise(ast.NodeTransformer):
         if len(node.generators) != 1:
             return node
         g = node.generators[0]
-        if g.is_async or g.ifs or not isinstance(g.iter, (ast.Tuple, ast.List)) or not (1 <= len(g.iter.elts) <= 8):
+        g_iter = self._table_iter(g.iter)
+        if g.is_async or g.ifs or not isinstance(g_iter, (ast.Tuple, ast.List)) or not (1 <= len(g_iter.elts) <= 8):
             return node
+        g = ast.comprehension(target=g.target, iter=g_iter, ifs=g.ifs, is_async=g.is_async)
         if isinstance(g.target, ast.Name):
             names, rows = [g.target.id], [[e] for e in g.iter.elts]
         elif isinstance(g.target, ast.Tuple) and all(isinstance(x, ast.Name) for x in g.target.elts):
@@ -1510,6 +1534,28 @@ class _Normalise(ast.NodeTransformer):
                 ast.copy_location(x, st)
         ast.fix_missing_locations(loop)
         return loop
+
+    def visit_FunctionDef(self, node):
+        stack = self.__dict__.setdefault("_fn_stack", [])
+        stack.append(node)
+        try:
+            return self.generic_visit(node)
+        finally:
+            stack.pop()
+
+    visit_AsyncFunctionDef = visit_FunctionDef
+
+    def _single_use_in_function(self, st, current=(), original=()) -> bool:
+        """the local a temporary-folding candidate binds is read exactly once in the whole enclosing function: a value assigned
+        inside a loop body and read after the loop (or in the next iteration) is not an explaining variable"""
+        tgt = st.targets[0] if isinstance(st, ast.Assign) and len(st.targets) == 1 else (st.target if isinstance(st, ast.AnnAssign) else None)
+        stack = self.__dict__.get("_fn_stack") or []
+        if not isinstance(tgt, ast.Name) or not stack:
+            return True
+        cnt = lambda nodes: sum(1 for n_ in nodes for x in ast.walk(n_) if isinstance(x, ast.Name) and x.id == tgt.id and isinstance(x.ctx, ast.Load))  # noqa: E731
+        # reads elsewhere in the function (the block being rewritten is counted in its current, already normalised form)
+        loads = cnt([stack[-1]]) - cnt(original) + cnt(current)
+        return loads <= 1
 
     @staticmethod
     def _fold_temp(st, nxt, rest):
@@ -2459,6 +2505,8 @@ def _inline_new_constants(tree: ast.Module, ref: dict, notes: list) -> ast.Modul
                 continue
             if stores.get(tgt, 0) != 1 or not _const_expr(val):
                 continue
+            if isinstance(val, ast.Tuple) and any(isinstance(r, ast.Tuple) for r in val.elts):
+                continue  # a table of rows keeps its name (loops over it are unrolled by _Normalise, evaluators resolve the name)
             inner = {n.id for n in ast.walk(val) if isinstance(n, ast.Name)}
             if tgt in inner or any(stores.get(n, 0) > 1 and n not in known for n in inner):
                 # a name of the value that is bound several times (e.g. also as a local somewhere) could be shadowed at a use
